@@ -163,12 +163,18 @@ _ORIGIN_TRUST = [
     'BTreeSet::{is_superset, extend}, the set of items of a Range / slice iterator (specs/origin_body.rs verif_sets), derived Default/Clone of Origin: assumed',
     'Origin::union (iterator adaptor code): assumed contract on the real signature',
 ]
-_LOADB = {'template': 'loadb.rs', 'rlimit': 30, 'items': [r'^token::builder::authorizer::load_and_translate_block$']}
+_LOADB = {'template': 'loadb.rs', 'rlimit': 30, 'items': [r'^token::builder::authorizer::(load_and_translate_block|AuthorizerBuilder::build_inner)$']}
 _LOADB_PROVED = (' Loading a block into the authorizer (load_and_translate_block, for every block, index, key map and every outcome of the symbol-table conversion oracles): every fact of block i is stored under origin '
                  'exactly {i} and nothing else is added to the fact store; every rule of block i is stored as owned by block i with the trusted set of ITS OWN scopes over the default trust of the block '
                  '(the block scopes over {authority, authorizer}, current block i), and nothing else is added to the rule store; existing facts and rules are kept; the key -> block map is not modified; '
-                 'facts, rules, scopes and checks of a third-party block (external key, i > 0) are read with the block\'s own symbol table, those of every other block with the token\'s.')
-_LOADB_ASSUME = ['unit loadb: FactSet::insert / RuleSet::insert add exactly the given (origin, fact) / (block, trusted set, rule) entry; conversions between symbol tables are functions of (object, source table) - interning in the target table is not modelled; Rule::validate_variables returns']
+                 'facts, rules, scopes and checks of a third-party block (external key, i > 0) are read with the block\'s own symbol table, those of every other block with the token\'s. '
+                 'Building the authorizer (AuthorizerBuilder::build_inner): the key -> block map registers block j (1-based) under key index k exactly when container block j-1 carries an external signature by the k-th distinct '
+                 'external key of the token (first-occurrence order = index in the fresh key table), the token-level trusted set is `previous` evaluated at block_count, blocks is Some with one entry per container block plus the '
+                 'authority (None without a token), every authorizer fact is stored under origin {authorizer} and every authorizer rule as owned by the authorizer with the trusted set of its own scopes over the authorizer scopes; '
+                 'the result has no cached execution time, a zero iteration counter and the builder\'s limits and policies.')
+_LOADB_ASSUME = ['unit loadb: FactSet::insert / RuleSet::insert add exactly the given (origin, fact) / (block, trusted set, rule) entry; conversions between symbol tables are functions of (object, source table) - interning in the target table is not modelled; Rule::validate_variables returns',
+                 'unit loadb / build_inner: the statement `blocks = Some(token.blocks().enumerate().map(.. load_and_translate_block ..).collect()?)` is an oracle (rule A5): one decoded block per container block plus the authority, key map only read, '
+                 'nothing stored under the authorizer origin; PublicKeys::insert returns the index of the first equal key and appends when absent; HashMap entry().or_default().push() appends to the list under the key; Biscuit::block_count = 1 + container blocks (token invariant rep(), unit token)']
 PROPS['C03'] = {
     'units': [{'template': 'origin.rs', 'rlimit': 30, 'items': [r'^datalog::origin::']}, _LOADB],
     'proved': 'TrustedOrigins::from_scopes returns, for all scope lists, block indices and key maps, exactly the set trusted_spec of the Biscuit scoping rules '
